@@ -48,7 +48,21 @@ What is proved
   the concrete node contract and C01's writer contract for every finite acyclic graph; the
   end-to-end join-tree statement is not derived (see the docstring).
 
-Not proved: the node theorems require fresh packet ids for everything an action returns, so an action
+* Joint model (`Uniflow.Flow`, the model the C02 driver replays; lean/Uniflow/Proofs/Flow.lean):
+  `C02.flow_nodes_honour_contract` every node of every reachable Flow state is a fresh-id run of the
+  node model, so the node contract holds inside the joint model; `C02.flow_link_credits_oldest`,
+  `C02.flow_link_in_order` the link layer credits answers to the oldest owing row and completes rows in
+  order; `C02.refAns_is_join_over_tree`, `C02.refAns_stable` the reference answer (join over the ghost
+  derivation tree) is as the property states it and is stable while the tree grows.
+
+Not proved: `C02.flow_answers_eq_ref_full` (kept as a `def`) – the end-to-end statement that at every
+prefix each response the source has received is the reference answer of its request and that at
+quiescence every request has exactly one, in order. Missing is the global invariant tying the layers
+together (per writer: pending writes = queued answers ++ pending rows, aligned with the node's `written`
+cells and with the requests held by the linked readers; per reader: the FIFO of feeding writers aligned
+with the held requests; every stored answer = `refAns` of its packet; global distinctness of live ids).
+It is checked on every run of `bin/check C02` instead: `S1` after every step, `F…`/`M1` at the end.
+The node theorems require fresh packet ids for everything an action returns, so an action
 returning its input packet is covered at tracer level only (`C02.tracer_refines`, `direct` requests);
 `C02.node_contract_full` (kept as a `def`) is superseded by `C02.node_contract`.
 -/
@@ -56,6 +70,7 @@ import Uniflow.Proofs.Node
 import Uniflow.Proofs.ATracer
 import Uniflow.Proofs.NodeProtocol
 import Uniflow.Props.C01
+import Uniflow.Proofs.Flow
 
 open Uniflow.Tracer Uniflow.Node Uniflow.NodeSpec
 
@@ -467,6 +482,141 @@ theorem C02.reply_cells_provenance :
         ∃ ms', join (a :: b :: as) = .pay (.err ms')) ∧
     (∀ a : Ans, join [a] = a) :=
   ⟨write_refused_is_echo, fillCell_spec, join_error_dominates, join_single⟩
+
+
+/-! ### the joint model (`Uniflow.Flow`: nodes + links + sinks in one process, the model the driver replays) -/
+
+open Uniflow.ATracer Uniflow.Flow in
+/-- **Every node of the joint model honours the node contract.** For every workflow (any kinds, any
+links) and every schedule of the Flow machine in which actions return new packets, every node of
+the state reached is the node model run on a schedule with pairwise distinct packet ids (they come
+from the counter `G.next`); hence – `C02.node_protocol`, `C02.tracer_refines` – its tracer has not
+panicked and holds exactly an abstract tracer state satisfying the invariant. The local guarantees of
+`C02.compose_instance_partial` therefore hold inside the joint model, not only for nodes in isolation. -/
+theorem C02.flow_nodes_honour_contract (kinds : List Kind) (links : List (Nat × List Tgt)) (es : List Ext)
+    (hf : ∀ e ∈ es, e.fresh = true) (n : Nat) (nd : Node)
+    (hn : getNode (runExt (initG kinds links) es).nodes n = some nd) :
+    (∃ sched, nd = (Uniflow.Node.run (Uniflow.Node.mk nd.kind) sched).1 ∧ (sched.flatMap introduced).Nodup) ∧
+    nd.tr.panic = false ∧ ∃ a : A, Uniflow.ATracer.TRel a nd.tr ∧ Inv a ∧ a.bad = false := by
+  have h := runExt_ok es _ (nodesOK_init kinds links) hf n nd hn
+  have e : introduced = introS := by
+    funext st
+    cases st with
+    | finish i o => cases o <;> rfl
+    | _ => rfl
+  obtain ⟨h1, _, h3⟩ := histOK_contract _ nd h
+  obtain ⟨sched, g1, g2, _⟩ := h
+  exact ⟨⟨sched, g1, e ▸ g2⟩, h1, h3⟩
+
+open Uniflow.Flow in
+/-- The reference answer (`Uniflow.Flow.refAns`, computed from the ghost derivation log) is what the
+property says: a packet nobody accepted is answered with itself; a copy delivered to a sink with the
+sink's answer; an accepted write with `Join` of the answers to its copies; a request with `Join` of the
+answers to the packets derived from it in link order – each only once everything below is determined. -/
+theorem C02.refAns_is_join_over_tree (lg : Log) (f : Nat) (p : Pid) :
+    (∀ v, aget lg.echo p = some v → refAns lg (f + 1) p = some (.pay v)) ∧
+    (∀ a, aget lg.echo p = none → aget lg.sinkAns p = some a → refAns lg (f + 1) p = some a) ∧
+    (∀ cs, aget lg.echo p = none → aget lg.sinkAns p = none → aget lg.dels p = some cs →
+      refAns lg (f + 1) p = (allSome (cs.map (refAns lg f))).map join) ∧
+    (∀ qs, aget lg.echo p = none → aget lg.sinkAns p = none → aget lg.dels p = none → aget lg.acts p = some qs →
+      refAns lg (f + 1) p = (allSome (qs.map (refAns lg f))).map join) :=
+  refAns_spec lg f p
+
+open Uniflow.Flow in
+/-- a determined reference answer is stable: more fuel does not change it, and neither does recording
+a fact about a packet nothing was recorded about before (the derivation tree only grows at open leaves) -/
+theorem C02.refAns_stable (lg lg' : Log) (k : Pid) (f : Nat) (p : Pid) (a : Ans) (h : refAns lg f p = some a) :
+    refAns lg (f + 1) p = some a ∧ (LogExt lg lg' k → refAns lg' f p = some a) :=
+  ⟨refAns_fuel_mono lg f p a h, fun hx => refAns_log_mono lg lg' k hx f p a h⟩
+
+open Uniflow.Flow in
+/-- **Link layer of the joint model, 1:** `Writer.receive` as the Flow model has it (`fillCol`) credits a
+reader's answer to the OLDEST pending row that still owes that reader (all rows before it have that
+reader's cell filled), changes nothing else, and reports whether that row is row 0; it fails only
+when no row owes that reader. -/
+theorem C02.flow_link_credits_oldest (col : Nat) (a : Ans) (rows : List (List (Option Ans))) (first : Bool) :
+    (∀ rows' f, fillCol col a rows first = some (rows', f) →
+      ∃ pre row post, rows = pre ++ row :: post ∧ (∀ r ∈ pre, cellFree r col = false) ∧
+        cellFree row col = true ∧ rows' = pre ++ setCell row col a :: post ∧ f = (first && pre.isEmpty)) ∧
+    (fillCol col a rows first = none → ∀ r ∈ rows, cellFree r col = false) :=
+  ⟨fun rows' f h => fillCol_spec col a rows rows' first f h, fillCol_none col a rows first⟩
+
+open Uniflow.Flow in
+/-- **Link layer, 2:** the pending rows of a writer keep the column-prefix shape (in every column the
+answered rows come before the owed ones) under `fillCol`; in that shape a complete row has only
+complete rows before it, so emitting only row 0 strands nothing and the k-th answer a writer hands
+to its node belongs to its k-th accepted write – the C01 contract (`C01.in_order`), here proved
+directly for the Flow model's own (never closed, fully linked) writer rather than through
+`WriterSpec`. -/
+theorem C02.flow_link_in_order (col : Nat) (a : Ans) (rows rows' : List (List (Option Ans))) (first f : Bool)
+    (hp : ColPrefix rows) (h : fillCol col a rows first = some (rows', f)) :
+    ColPrefix rows' ∧
+    ∀ pre row post, rows' = pre ++ row :: post → (∀ c, cellFree row c = false) →
+      ∀ r ∈ pre, ∀ c, cellFree r c = false :=
+  ⟨colPrefix_fill col a rows rows' first f hp h,
+   fun pre row post hs hc => colPrefix_complete_prefix rows' (colPrefix_fill col a rows rows' first f hp h) pre row post hs hc⟩
+
+open Uniflow.Flow in
+/-- links go forward: a writer of node `n` (key `n*64+w`) or the source feeds only nodes with a larger
+index / the source feeds node in-ports -/
+def C02.FlowWF (kinds : List Kind) (links : List (Nat × List Tgt)) : Prop :=
+  ∀ key tgts, (key, tgts) ∈ links → ∀ t ∈ tgts,
+    match t with
+    | .node m port => m < kinds.length ∧ (key = srcKey ∨ key / 64 < m) ∧ port < 64
+    | .sink _ => True
+
+open Uniflow.Flow in
+/-- **End-to-end statement (NOT proved).** For every acyclic workflow of the three node kinds and EVERY
+schedule of the Flow machine (fresh action results):
+(safety, every prefix) the i-th response the source has received is the reference answer of its i-th
+request – in particular a response exists only when every packet derived from the request, down to the
+sinks, has been answered; and (at quiescence) every request has exactly one response, in request
+order, equal to `refAns`.
+Checked on every run of `bin/check C02`: the driver prints `refAnswers` at `end` (`F…`) – compared with the
+REAL responses by the harness – and `M1` iff the model's own responses equal them. -/
+def C02.flow_answers_eq_ref_full : Prop :=
+  ∀ (kinds : List Kind) (links : List (Nat × List Tgt)) (es : List Ext),
+    C02.FlowWF kinds links → (∀ e ∈ es, e.fresh = true) →
+    let g := runExt (initG kinds links) es
+    (∀ (i : Nat) (a : Ans), g.resp[i]? = some a → ∃ p, g.roots[i]? = some p ∧ ∃ f, refAns g.log f p = some a) ∧
+    (quiescent g = true → anyPanic g = false → refAnswers g = some g.resp)
+
+open Uniflow.Flow in
+/-- a concrete workflow for the instance below: a diamond – one-to-many node 0 → one-to-one nodes 1, 2 →
+many-to-one node 3 → sink 0; every error port and nothing else unconnected -/
+def C02.diamondLinks : List (Nat × List Tgt) :=
+  [(srcKey, [.node 0 0]), (wkey 0 1, [.node 1 0]), (wkey 0 2, [.node 2 0]),
+   (wkey 1 1, [.node 3 0]), (wkey 2 1, [.node 3 1]), (wkey 3 1, [.sink 0])]
+
+open Uniflow.Flow in
+/-- two pipelined requests; the second enters node 0's action while the first is still below it; node 1
+fails on the second (its error port is unconnected: echo) -/
+def C02.diamondSched : List Ext :=
+  [.send (.atom 1), .send (.atom 2),
+   .release 0 (.many [some (.atom 3), some (.atom 4)]),
+   .release 1 (.out (.atom 5)),
+   .release 0 (.many [some (.atom 7), some (.atom 8)]),
+   .release 2 (.out (.atom 9)),
+   .release 3 (.out (.atom 10)),
+   .release 1 (.err (.err [11])),
+   .sinkAnswer 0 (some (.pay (.atom 12))),
+   .release 2 (.out (.atom 13))]
+
+open Uniflow.Flow in
+/-- **The end-to-end statement on a concrete run** (kernel-evaluated): the run above ends quiescent and
+without panic, the source has received exactly two responses, in request order, and they ARE the
+reference answers – `[5, 12]` (the echo of the group member that arrived first joined with the sink's
+answer to the output derived from the member that completed the group) and the error `11` (an error
+anywhere makes the answer an error). Non-vacuity of `C02.flow_answers_eq_ref_full`. -/
+theorem C02.flow_answers_eq_ref_instance :
+    quiescent (runExt (initG [.oneToMany 2, .oneToOne, .oneToOne, .manyToOne 2] C02.diamondLinks) C02.diamondSched) = true ∧
+    anyPanic (runExt (initG [.oneToMany 2, .oneToOne, .oneToOne, .manyToOne 2] C02.diamondLinks) C02.diamondSched) = false ∧
+    (match refAnswers (runExt (initG [.oneToMany 2, .oneToOne, .oneToOne, .manyToOne 2] C02.diamondLinks) C02.diamondSched),
+           (runExt (initG [.oneToMany 2, .oneToOne, .oneToOne, .manyToOne 2] C02.diamondLinks) C02.diamondSched).resp with
+     | some [.pay (.slice [.atom 5, .atom 12]), .pay (.err [11])],
+       [.pay (.slice [.atom 5, .atom 12]), .pay (.err [11])] => true
+     | _, _ => false) = true := by
+  refine ⟨?_, ?_, ?_⟩ <;> rfl
 
 /-! ### the pinned tree -/
 
